@@ -52,6 +52,12 @@ CLAIMED = {
         "the operand's encoding.",
         "Holds on the explored region only (4 encodings). The list model has no view aliasing, so assignment is only made on fresh copies and the original is re-checked.",
         "Hypothesis-generated operation programs interpreted against a list-of-strings reference model"),
+    "C08": (
+        "Exhaustive enumeration of every interval multiset (up to 3 intervals) on contigs of size 1..6 (1..8 thorough) with every merge distance, "
+        "and every pair of multisets (2+2) on sizes up to 5 (6 thorough), plus Hypothesis sets on contigs up to 300; every function's result is "
+        "compared with a dense per-base Python model and every input is compared with its snapshot after each call.",
+        "Holds on the explored region; the small-contig cores are complete. count_overlap / intersect are only checked for values on internally non-overlapping sets (their sweep has no meaning otherwise).",
+        "exhaustive small-domain enumeration + Hypothesis sampling, reference-model oracle (dense per-base arrays)"),
     "C15": (
         "Fault injection over generated inputs: one format violation of each class is injected at every record position of a well-formed file; "
         "exhaustive over small files x every chunk size x lazy/eager x plain/gzip, sampled for larger files of nine formats. Oracle: an exception "
